@@ -32,6 +32,71 @@ fn transparent_faults(rng: &mut Rng, files: &[String]) -> Vec<Fault> {
     v
 }
 
+impl C20 {
+    /// one process, one thread: group on version 1 of the files, rewrite, the same group on version 2
+    fn check_sequence(&self, sc: &Scenario) -> RunReport {
+        let mut rep = RunReport::default();
+        let out = crate::exec::exec(sc, &ExecOpts::default());
+        rep.execs += 1;
+        rep.steps += out.steps;
+        rep.fire(&out.fired);
+        if let Some(e) = &out.harness_error {
+            rep.harness_error = Some(e.clone());
+            return rep;
+        }
+        // split the program into groups at the rewrites
+        let mut groups: Vec<Vec<usize>> = vec![vec![]];
+        for (i, op) in sc.threads[0].iter().enumerate() {
+            match op {
+                Op::Call(_) => groups.last_mut().unwrap().push(i),
+                _ => {
+                    if !groups.last().unwrap().is_empty() {
+                        groups.push(vec![]);
+                    }
+                }
+            }
+        }
+        for (g, idx) in groups.iter().enumerate() {
+            let first = match idx.first().and_then(|i| out.call(0, *i)) {
+                Some(o) => o,
+                None => continue,
+            };
+            for i in idx.iter().skip(1) {
+                if let Some(o) = out.call(0, *i) {
+                    if !o.same_result(first) && rep.violations.is_empty() {
+                        let (a, b) = match (&sc.threads[0][idx[0]], &sc.threads[0][*i]) {
+                            (Op::Call(a), Op::Call(b)) => (a.api.name(), b.api.name()),
+                            _ => ("?", "?"),
+                        };
+                        rep.violations.push(mismatch(
+                            "C20",
+                            "C20.entry_points_agree",
+                            0,
+                            *i,
+                            first,
+                            o,
+                            &format!("{} disagrees with {} on visit {} of the same paths in one process", b, a, g + 1),
+                        ));
+                    }
+                }
+            }
+        }
+        rep.probe("sequence_groups", 1);
+        rep.nontrivial = true;
+        rep.distinct_key = sc.hash();
+        rep.sample = Some(serde_json::json!({
+            "family": sc.family,
+            "program": sc.threads[0].iter().map(|op| match op {
+                Op::Call(c) => serde_json::json!({"call": c.api.name(), "ignore_include": c.ignore_include, "strip_comments": c.strip_comments}),
+                Op::Rewrite { path, .. } => serde_json::json!({"rewrite": path}),
+                Op::Remove { path } => serde_json::json!({"remove": path}),
+            }).collect::<Vec<_>>(),
+            "results": out.calls.iter().map(|o| o.short()).collect::<Vec<_>>(),
+        }));
+        rep
+    }
+}
+
 impl Property for C20 {
     fn id(&self) -> &'static str {
         "C20"
@@ -57,7 +122,7 @@ impl Property for C20 {
         ]
     }
     fn required_probes(&self) -> Vec<&'static str> {
-        vec!["groups_flags_tf_or_ft", "transparent_fault_fired", "opaque_condition", "lib_groups", "pp_pair_groups"]
+        vec!["groups_flags_tf_or_ft", "transparent_fault_fired", "opaque_condition", "lib_groups", "pp_pair_groups", "sequence_groups"]
     }
 
     fn generate(&self, seed: u64, run: u64, tier: &str) -> Scenario {
@@ -135,7 +200,7 @@ impl Property for C20 {
             sc.family = "parse_sv quartet".into();
             vec![Api::ParseSv, Api::ParseSvStr, Api::ParseSvPp, Api::ParseSvPpStr]
         };
-        let mut ops = vec![];
+        let mut ops: Vec<Op> = vec![];
         for api in apis {
             let mut c = base(api);
             if api.reads_file() {
@@ -152,11 +217,45 @@ impl Property for C20 {
             }
             ops.push(Op::Call(c));
         }
+        // "sequence" family: the whole group runs on ONE thread of ONE process, after an earlier
+        // visit of the same paths whose contents then change - the equality is claimed for every
+        // call, whatever was read before
+        if rng.chance(1, 4) {
+            let mut seq = ops.clone();
+            let current: Vec<VNode> = sc.vfs.clone();
+            for n in &current {
+                if let VNode::File { path, bytes: Bytes::Text(t) } = n {
+                    let t2 = if path == "/w/top.sv" && family < 8 {
+                        t.replacen("module top;", "module top;\n  wire second_visit; // v2", 1)
+                    } else if path == "/w/top.sv" {
+                        format!("{}library second_visit v2.v; // v2\n", t)
+                    } else {
+                        t.replacen("localparam int L", "localparam int V2L", 1).replacen("library inc", "library inc2", 1)
+                    };
+                    if t2 != *t {
+                        seq.push(Op::Rewrite { path: path.clone(), bytes: Bytes::Text(t2) });
+                    }
+                }
+            }
+            seq.extend(ops.clone());
+            ops = seq;
+            sc.family = format!("{} sequence", sc.family);
+        }
         sc.threads = vec![ops];
         sc
     }
 
     fn valid(&self, sc: &Scenario) -> bool {
+        if sc.family.ends_with("sequence") {
+            // shrinking a sequence could break the pairing of groups: only whole scenarios are valid
+            return sc.threads.len() == 1 && sc.calls().count() >= 4 && sc.calls().all(|c| c.path == "top.sv" && c.text.is_none())
+                && sc.threads[0].iter().filter(|o| matches!(o, Op::Rewrite { .. })).count() >= 1
+                && {
+                    let calls: Vec<&Call> = sc.calls().collect();
+                    let half = calls.len() / 2;
+                    calls.len() % 2 == 0 && (0..half).all(|i| calls[i] == calls[i + half])
+                };
+        }
         // "contents of path" must exist, be deliverable unchanged, and every call must name it
         let top = sc.vfs.iter().any(|n| matches!(n, VNode::File { path, bytes: Bytes::Text(_) } if crate::vfs::normalise(&sc.cwd, path) == "/w/top.sv"));
         let calls: Vec<&Call> = sc.calls().collect();
@@ -188,6 +287,9 @@ impl Property for C20 {
             return rep;
         }
         let opts = ExecOpts::default();
+        if sc.family.ends_with("sequence") {
+            return self.check_sequence(sc);
+        }
         let calls: Vec<&Call> = sc.calls().collect();
         let mut outs = vec![];
         for c in &calls {
